@@ -30,7 +30,14 @@ func (r *byteReader) Read(p []byte) (int, error) {
 // using the real ansi parser. Anything outside the renderer's vocabulary becomes
 // KMouseShape [-1; ...] (which no model output equals).
 func Tokenize(b []byte) []string {
-	var out []string
+	out, timerEsc := tokenizeOnce(b)
+	for n := 0; n < hx.TimerEscRetries && timerEsc; n++ {
+		out, timerEsc = tokenizeOnce(b) // scheduling artefact, see hx.IsTimerEsc
+	}
+	return out
+}
+
+func tokenizeOnce(b []byte) (out []string, timerEsc bool) {
 	unknown := func(s string) {
 		out = append(out, "KMouseShape "+hx.Runes("￿unknown:"+s))
 	}
@@ -84,11 +91,14 @@ func Tokenize(b []byte) []string {
 				unknown(pl)
 			}
 		default:
+			if hx.IsTimerEsc(seq) {
+				timerEsc = true
+			}
 			unknown(fmt.Sprintf("%T %v", seq, seq))
 		}
 		p.Finish(seq)
 	}
-	return out
+	return out, timerEsc
 }
 
 func ints(v []int) string {
